@@ -430,3 +430,48 @@ Lemma nonvacuous :
   pop_run unit_poly N_example units_example (mkq 1 4) 3 = Some (exp_run 0 unit_poly N_example units_example (mkq 1 4) 3) /\
   list_eqb pstate_eqb (nth 1 (exp_run 0 unit_poly N_example units_example (mkq 1 4) 3) []) units_example = false.
 Proof. repeat split; vm_compute; reflexivity. Qed.
+
+(* ------------------------------------------------------------------ all connections of one target variable *)
+Lemma pop_contrib_length N hist c V :
+  wf_conn N c = true -> shapes_ok N hist c V -> length (pop_contrib N hist c V) = size_of N (ctgt c).
+Proof.
+  intros Hwf (Hs & Ht & HV). unfold wf_conn in Hwf. apply andb_true_iff in Hwf. destruct Hwf as [_ Hrect].
+  unfold pop_contrib. destruct (cw c) as [W|w]; [|apply repeat_length].
+  destruct (rect_rows _ _ _ Hrect) as [HL _].
+  destruct (ccpl c) as [|b f|b g] eqn:Ek.
+  - unfold case0a. destruct (ncols W =? 1)%nat; [now rewrite map_length|].
+    destruct (Nat.eqb_spec (length W) 1) as [H1|H1]; [cbn [length]; unfold vec, mat in *; lia|].
+    unfold matvec. now rewrite map_length.
+  - unfold wsum, map2m, broadcast_pre, broadcast_post. rewrite !zipw_length, repeat_length, map_length.
+    unfold vec, mat in *. lia.
+  - specialize (HV eq_refl). unfold wsum. rewrite zipw_length. unfold vec, mat in *. lia.
+Qed.
+
+Definition conn_ok (N : popnet) (hist : list nstate) (cV : conn * mat) : Prop :=
+  wf_conn N (fst cV) = true /\ conn_guard N (fst cV) = true /\ shapes_ok N hist (fst cV) (snd cV).
+
+(* the input that unit i of population p receives in variable tv: the population circuit (sum of the vectors of all
+   Connectivity objects onto that variable) = the explicit network (sum over all expanded scalar edges into the unit) *)
+Theorem pop_input_is_exp_input N hist p tv i :
+  Forall (conn_ok N hist) (combine (conns N) (snd (cur hist) ++ repeat [] (length (conns N)))) ->
+  (i < size_of N p)%nat ->
+  nth i (pop_input N hist p tv) 0 = exp_input 0 N hist p tv i.
+Proof.
+  intros Hall Hi. unfold pop_input, exp_input.
+  set (L := combine (conns N) (snd (cur hist) ++ repeat [] (length (conns N)))) in *.
+  assert (HF : Forall (fun cV => conn_ok N hist cV /\ ctgt (fst cV) = p) (filter (fun cV => into p tv (fst cV)) L)).
+  { apply Forall_forall. intros cV Hin. apply filter_In in Hin. destruct Hin as [Hin Hinto].
+    rewrite Forall_forall in Hall. split; [now apply Hall|].
+    unfold into in Hinto. apply andb_true_iff in Hinto. destruct Hinto as [H _]. now apply Nat.eqb_eq in H. }
+  clearbody L. induction HF as [|cV l [(Hwf & Hg & Hsh) Ht] HFl IH].
+  - cbn [map vsumv fold_right]. now apply nth_repeat_lt.
+  - cbn [map fold_right]. change (vsumv (size_of N p) (?a :: ?l)) with (vadd a (vsumv (size_of N p) l)).
+    assert (Hlen : length (map (fun cV0 => pop_contrib N hist (fst cV0) (snd cV0)) l) = length l) by apply map_length.
+    rewrite vadd_nth.
+    + rewrite IH. f_equal. apply pop_contrib_is_edge_sum; try assumption. now rewrite Ht.
+    + rewrite pop_contrib_length by assumption. now rewrite Ht.
+    + rewrite vsumv_length; [exact Hi|]. apply Forall_forall. intros v Hv. apply in_map_iff in Hv.
+      destruct Hv as (cV' & <- & Hin').
+      rewrite Forall_forall in HFl. destruct (HFl cV' Hin') as [(Hwf' & _ & Hsh') Ht'].
+      rewrite pop_contrib_length by assumption. now rewrite Ht'.
+Qed.
